@@ -688,3 +688,147 @@ Lemma short_body_padded eflr ty first last chunk :
   make_segment eflr ty first last chunk = OK (seg_bytes (aseg eflr ty first last chunk))
   /\ seg_wf (aseg eflr ty first last chunk) = true.
 Proof. intros. destruct (make_segment_ok eflr ty first last chunk) as (A & B & _); auto. Qed.
+
+(* ---------- the strict reader is sound: whatever it accepts has the declared layout ---------- *)
+
+Lemma take_spec n (bs p rest : bytes) : take n bs = Some (p, rest) -> bs = p ++ rest /\ zlen p = n /\ 0 <= n.
+Proof.
+  unfold take. destruct ((0 <=? n) && (n <=? zlen bs)) eqn:E; [|discriminate]. intros H. inv H.
+  split; [symmetry; apply firstnz_skipnz|]. split; [apply zlen_firstnz; lia | lia].
+Qed.
+
+Definition attr_ok (a : Z) : bool :=
+  implb ((a / 2) mod 16 =? 0)
+        (seg_attr (128 <=? a) (negb (Z.odd (a / 64))) (negb (Z.odd (a / 32))) (Z.odd a) =? a).
+
+Lemma attr_ok_all : forallb attr_ok (map Z.of_nat (seq 0 256)) = true.
+Proof. vm_compute. reflexivity. Qed.
+
+Lemma attr_roundtrip a : is_byte a = true -> (a / 2) mod 16 = 0 ->
+  seg_attr (128 <=? a) (negb (Z.odd (a / 64))) (negb (Z.odd (a / 32))) (Z.odd a) = a.
+Proof.
+  intros Hb Hz. pose proof attr_ok_all as H. rewrite forallb_forall in H.
+  assert (Hin : In a (map Z.of_nat (seq 0 256))).
+  { apply in_map_iff. exists (Z.to_nat a). unfold is_byte in Hb. split; [lia|]. apply in_seq. lia. }
+  specialize (H a Hin). unfold attr_ok in H. rewrite Hz in H. cbn [Z.eqb implb] in H. apply Z.eqb_eq in H. exact H.
+Qed.
+
+Lemma last_skipn_nonnil {A} (d : A) : forall n (l : list A), (n < length l)%nat -> last (skipn n l) d = last l d.
+Proof.
+  induction n as [|n IH]; intros l H; [reflexivity|]. destruct l as [|x l]; [cbn in H; lia|].
+  cbn [skipn]. rewrite IH by (cbn in H; lia). destruct l; [cbn in H; lia | reflexivity].
+Qed.
+
+Lemma parse_seg_sound bs s rest : parse_seg bs = Some (s, rest) -> bs = seg_bytes s ++ rest /\ seg_wf s = true.
+Proof.
+  unfold parse_seg. destruct bs as [|a [|b [|at_ [|ty r]]]]; try discriminate.
+  destruct (is_byte a && is_byte b && is_byte at_ && is_byte ty) eqn:Eb; cbn [negb]; [|discriminate].
+  repeat (apply andb_prop in Eb; destruct Eb as [Eb ?]). rename Eb into Ha, H into Hty, H0 into Hat, H1 into Hbb.
+  set (len := of_be2 a b) in *.
+  destruct (Z.even len && (16 <=? len)) eqn:El; cbn [negb]; [|discriminate]. apply andb_prop in El. destruct El as [Hev H16].
+  destruct ((at_ / 2) mod 16 =? 0) eqn:Ez; cbn [negb]; [|discriminate]. apply Z.eqb_eq in Ez.
+  destruct (take (len - 4) r) as [[payload rest']|] eqn:Et; [|discriminate].
+  destruct (take_spec _ _ _ _ Et) as (-> & Hpl & _).
+  destruct (all_bytes payload) eqn:Hpb; cbn [negb]; [|discriminate].
+  set (pc := if Z.odd at_ then last payload 0 else 0).
+  destruct (Z.odd at_ && negb ((1 <=? pc) && (pc <=? len - 4))) eqn:Ep; [discriminate|].
+  intros H. inv H.
+  assert (Hlen : len = a * 256 + b) by reflexivity. unfold is_byte in Ha, Hbb.
+  assert (Hpc : 0 <= pc <= len - 4 /\ (Z.odd at_ = true -> 1 <= pc)).
+  { unfold pc in *. destruct (Z.odd at_); cbn [andb negb] in Ep; lia. }
+  set (k := len - 4 - pc).
+  assert (Hk : 0 <= k <= zlen payload) by (unfold k; lia).
+  assert (Hc : zlen (firstnz k payload) = k) by (apply zlen_firstnz; exact Hk).
+  assert (Hp : zlen (skipnz k payload) = pc) by (rewrite zlen_skipnz by exact Hk; unfold k; lia).
+  assert (Hnn : nonnil (skipnz k payload) = Z.odd at_).
+  { destruct (skipnz k payload) as [|x l] eqn:Es.
+    - cbn. rewrite zlen_nil in Hp. destruct (Z.odd at_); [destruct Hpc as [_ Hx]; specialize (Hx eq_refl); lia | reflexivity].
+    - cbn. rewrite zlen_cons in Hp. pose proof (zlen_nonneg l). unfold pc in Hp. destruct (Z.odd at_); [reflexivity | lia]. }
+  split.
+  - unfold seg_bytes, seg_len. cbn [s_chunk s_padb s_eflr s_pred s_succ s_type]. fold k. rewrite Hc, Hp, Hnn.
+    replace (4 + k + pc) with len by (unfold k; lia).
+    rewrite (attr_roundtrip at_ Hat Ez).
+    unfold be2. replace (len / 256) with a by lia. replace (len mod 256) with b by lia.
+    cbn [app]. rewrite <- !app_assoc. rewrite (app_assoc (firstnz k payload)). rewrite firstnz_skipnz. reflexivity.
+  - unfold seg_wf, seg_len. cbn [s_chunk s_padb s_type]. fold k. rewrite Hc, Hp.
+    replace (4 + k + pc) with len by (unfold k; lia). rewrite Hev, H16, Hty.
+    rewrite (all_bytes_firstnz k _ Hpb), (all_bytes_skipnz k _ Hpb).
+    replace (len <? 65536) with true by lia. cbn [andb].
+    assert (HG : skipnz k payload <> [] -> (last (skipnz k payload) 0 =? pc) = true).
+    { intros Hne.
+      assert (Hodd : Z.odd at_ = true) by (rewrite <- Hnn; destruct (skipnz k payload); [congruence | reflexivity]).
+      unfold pc. rewrite Hodd. unfold skipnz. rewrite last_skipn_nonnil; [apply Z.eqb_refl|].
+      assert (length (skipn (Z.to_nat k) payload) <> 0)%nat by (intros E0; apply Hne; unfold skipnz; destruct (skipn (Z.to_nat k) payload); [reflexivity | discriminate]).
+      rewrite skipn_length in H. lia. }
+    destruct (skipnz k payload) as [|x l]; [reflexivity|]. apply HG. discriminate.
+Qed.
+
+Lemma parse_segs_sound : forall fuel bs segs, parse_segs fuel bs = Some segs ->
+  bs = concat (map seg_bytes segs) /\ forallb seg_wf segs = true.
+Proof.
+  induction fuel as [|f IH]; intros bs segs H; [discriminate|]. cbn [parse_segs] in H.
+  destruct bs as [|x bs']; [inv H; split; reflexivity|].
+  destruct (parse_seg (x :: bs')) as [[s rest]|] eqn:Es; [|discriminate].
+  destruct (parse_segs f rest) as [ss|] eqn:Er; [|discriminate]. inv H.
+  destruct (parse_seg_sound _ _ _ Es) as [E1 W1]. destruct (IH _ _ Er) as [E2 W2].
+  split; [cbn [map concat]; rewrite E1, E2; reflexivity | cbn [forallb]; rewrite W1, W2; reflexivity].
+Qed.
+
+Lemma parse_vr_sound maxlen bs segs rest : parse_vr maxlen bs = Some (segs, rest) ->
+  bs = vr_bytes segs ++ rest /\ vr_wf maxlen segs = true.
+Proof.
+  unfold parse_vr. destruct bs as [|a [|b [|m1 [|m2 r]]]]; try discriminate.
+  destruct (is_byte a && is_byte b) eqn:Eb; cbn [negb]; [|discriminate]. apply andb_prop in Eb. destruct Eb as [Ha Hb].
+  destruct ((m1 =? 255) && (m2 =? 1)) eqn:Em; cbn [negb]; [|discriminate]. apply andb_prop in Em. destruct Em as [Em1 Em2].
+  set (len := of_be2 a b) in *.
+  destruct (Z.even len && (20 <=? len) && (len <=? maxlen)) eqn:El; cbn [negb]; [|discriminate].
+  repeat (apply andb_prop in El; destruct El as [El ?]).
+  destruct (take (len - 4) r) as [[body rest']|] eqn:Et; [|discriminate].
+  destruct (take_spec _ _ _ _ Et) as (-> & Hbl & _).
+  destruct (parse_segs (S (length body)) body) as [[|s ss]|] eqn:Ep; try discriminate.
+  intros Hx. inv Hx. destruct (parse_segs_sound _ _ _ Ep) as [Eb W].
+  assert (Hlen : len = a * 256 + b) by reflexivity. unfold is_byte in Ha, Hb.
+  assert (HL : vr_len (s :: ss) = len) by (unfold vr_len; rewrite <- Eb; lia).
+  split.
+  - unfold vr_bytes. rewrite HL. unfold be2. replace (len / 256) with a by lia. replace (len mod 256) with b by lia.
+    rewrite <- Eb. apply Z.eqb_eq in Em1, Em2. subst m1 m2. cbn [app]. rewrite <- ?app_assoc. reflexivity.
+  - unfold vr_wf. rewrite HL, W. cbn [nonnil andb]. apply andb_true_intro. split; assumption.
+Qed.
+
+Lemma parse_vrs_sound maxlen : forall fuel bs vrs, parse_vrs fuel maxlen bs = Some vrs ->
+  bs = concat (map vr_bytes vrs) /\ Forall (fun v => vr_wf maxlen v = true) vrs.
+Proof.
+  induction fuel as [|f IH]; intros bs vrs H; [discriminate|]. cbn [parse_vrs] in H.
+  destruct bs as [|x bs']; [inv H; split; [reflexivity | constructor]|].
+  destruct (parse_vr maxlen (x :: bs')) as [[v rest]|] eqn:Ev; [|discriminate].
+  destruct (parse_vrs f maxlen rest) as [vs|] eqn:Er; [|discriminate]. inv H.
+  destruct (parse_vr_sound _ _ _ _ Ev) as [E1 W1]. destruct (IH _ _ Er) as [E2 W2].
+  split; [cbn [map concat]; rewrite E1, E2; reflexivity | constructor; assumption].
+Qed.
+
+(* the C01 decider on implementation output is exact: it accepts a byte string iff it has the layout *)
+Theorem check_layout_sound c bs : check_layout c bs = true -> Layout c bs.
+Proof.
+  unfold check_layout, parse_file. destruct (sul_bytes c) as [lab|] eqn:Hs; [|discriminate].
+  destruct (check_vrl (sul_vrl c)) eqn:Hv; cbn [negb]; [|discriminate].
+  destruct (zlen lab =? 80) eqn:Hl; cbn [negb]; [|discriminate]. apply Z.eqb_eq in Hl.
+  destruct (list_eqb (firstnz 80 bs) lab) eqn:He; cbn [negb]; [|discriminate]. apply list_eqb_eq in He.
+  destruct (parse_vrs (S (length bs)) (sul_vrl c) (skipnz 80 bs)) as [vrs|] eqn:Hp; [|discriminate].
+  intros _. destruct (parse_vrs_sound _ _ _ _ Hp) as [Eb W].
+  exists lab, vrs. repeat split; try assumption.
+  rewrite <- (firstnz_skipnz 80 bs). rewrite He, Eb. reflexivity.
+Qed.
+
+Theorem check_layout_complete c bs : Layout c bs -> check_layout c bs = true.
+Proof.
+  intros (lab & vrs & Hs & Hl & Hv & -> & Hw). unfold check_layout, parse_file. rewrite Hs, Hv, Hl. cbn [Z.eqb Pos.eqb negb].
+  replace 80 with (zlen lab) by assumption. rewrite firstnz_app_exact, skipnz_app_exact.
+  assert (E : list_eqb lab lab = true) by (apply list_eqb_eq; reflexivity). rewrite E. cbn [negb].
+  destruct (check_vrl_range _ Hv) as [Hr _].
+  rewrite parse_vrs_print; [reflexivity | |].
+  - eapply Forall_impl; [|exact Hw]. cbv beta. intros v Hvw. split; [exact Hvw|]. destruct (vr_wf_bounds _ _ Hvw) as [Hb _]. lia.
+  - rewrite app_length.
+    assert (length vrs <= length (concat (map vr_bytes vrs)))%nat.
+    { clear. induction vrs as [|v vs IH]; [cbn; lia|]. cbn [map concat length]. rewrite app_length. unfold vr_bytes at 1, be2. cbn [app length]. lia. }
+    lia.
+Qed.
